@@ -47,6 +47,9 @@ class FunctionTranslator:
         self.px = schema.get('prefix', schema['name'])
         self.bound = set()                        # comprehension variables in scope
         self.used_leaves = set()
+        self.in_lock = 0
+        self.lock_expr = schema.get('lock')
+        self.shared = set(schema.get('shared', ()))
 
     # ---- helpers
     def fail(self, node, why):
@@ -77,6 +80,7 @@ class FunctionTranslator:
         key = norm(node)
         if key in self.leaves:
             self.used_leaves.add(key)
+            self.check_shared(node, key)
             entry = self.leaves[key]
             if isinstance(entry, dict):          # the same text read as a condition and as a value
                 if want not in entry:
@@ -135,6 +139,11 @@ class FunctionTranslator:
             return 'res', '(filterM (fun %s => %s) %s)' % (g.target.id, ct, it)
         self.fail(node, 'expression outside the translated subset (no leaf entry)')
 
+    def check_shared(self, node, key):
+        """lock discipline: a leaf that touches the shared state must be lexically inside `with <lock>:`"""
+        if key in self.shared and not self.in_lock:
+            self.fail(node, 'shared state accessed outside `with %s`' % self.lock_expr)
+
     def cond(self, node):
         k, t = self.expr(node, 'cond')
         if k in ('cond', 'condM'):
@@ -155,6 +164,7 @@ class FunctionTranslator:
         key = norm(node)
         if key in self.stmt_leaves:
             self.used_leaves.add(key)
+            self.check_shared(node, key)
             kind, payload = self.stmt_leaves[key]
             if kind == 'skip':
                 return '(Ok (Normal st))'
@@ -219,6 +229,29 @@ class FunctionTranslator:
                 return '(bind %s (fun l__ => for_each l__ st (fun %s st => %s%s%s)))' % (
                     it, pat, lets, body, ')' * len(sets))
             return '(for_each %s st (fun %s st => %s%s%s))' % (it, pat, lets, body, ')' * len(sets))
+        if isinstance(node, ast.With):
+            # `with self.lock:` - sequentially the body; the lexical extent feeds the lock-discipline check
+            if len(node.items) != 1 or node.items[0].optional_vars is not None or \
+                    self.lock_expr is None or norm(node.items[0].context_expr) != self.lock_expr:
+                self.fail(node, 'with-statement other than the declared lock')
+            self.in_lock += 1
+            try:
+                return self.block(node.body)
+            finally:
+                self.in_lock -= 1
+        if isinstance(node, ast.While):
+            if node.orelse:
+                self.fail(node, 'while/else')
+            fuel = self.s.get('fuel')
+            if fuel is None:
+                self.fail(node, 'while-loop without a `fuel` entry')
+            if isinstance(node.test, ast.Constant) and node.test.value is True:
+                ct = 'Ok true'
+            else:
+                k, t = self.cond(node.test)
+                ct = '(Ok %s)' % t if k == 'cond' else t
+            body = self.block(node.body)
+            return '(while_loop %s st (fun st => %s) (fun st => %s))' % (self.fill(fuel), ct, body)
         if isinstance(node, ast.Continue):
             return '(Ok (Cont st))'
         if isinstance(node, ast.Break):
